@@ -219,13 +219,13 @@ UNITS = [{
         },
         # Vm::pop: the popped cell read through the heap (verified here; the other groups assume this text)
         'impl Vm::pop': {
-            'props': P + ['C05', 'C06'],
+            'props': P + ['C06'],
             'requires': ['old(self).stack_spec().wf()'],
-            'ensures': [(P + ['C05'], 'r matches Ok(c) ==> c == heap_deref(old(self).heap_spec(), old(self).stack_spec().cells()[old(self).stack_spec().sp_spec() as int])'),
-                        (P + ['C05'], 'final(self).heap_spec() == old(self).heap_spec() && final(self).regs() == old(self).regs() && final(self).acc_spec() == old(self).acc_spec() && final(self).globenv_spec() == old(self).globenv_spec()'),
-                        (P + ['C05'], 'final(self).stack_spec().wf() && final(self).stack_spec().cells() == old(self).stack_spec().cells()'),
-                        (P + ['C05'], 'old(self).stack_spec().sp_spec() > 0 ==> r is Ok && final(self).stack_spec().sp_spec() == old(self).stack_spec().sp_spec() - 1'),
-                        (P + ['C05'], 'old(self).stack_spec().sp_spec() == 0 ==> r is Err && final(self).stack_spec().sp_spec() == 0')],
+            'ensures': [(P, 'r matches Ok(c) ==> c == heap_deref(old(self).heap_spec(), old(self).stack_spec().cells()[old(self).stack_spec().sp_spec() as int])'),
+                        (P, 'final(self).heap_spec() == old(self).heap_spec() && final(self).regs() == old(self).regs() && final(self).acc_spec() == old(self).acc_spec() && final(self).globenv_spec() == old(self).globenv_spec()'),
+                        (P, 'final(self).stack_spec().wf() && final(self).stack_spec().cells() == old(self).stack_spec().cells()'),
+                        (P, 'old(self).stack_spec().sp_spec() > 0 ==> r is Ok && final(self).stack_spec().sp_spec() == old(self).stack_spec().sp_spec() - 1'),
+                        (P, 'old(self).stack_spec().sp_spec() == 0 ==> r is Err && final(self).stack_spec().sp_spec() == 0')],
             'body_start': 'proof { let c = old(self).stack_spec().cells()[old(self).stack_spec().sp_spec() as int]; axiom_deref_immediate(old(self).heap_spec(), c); }',
         },
         'impl Vm::run_one': {
